@@ -139,7 +139,8 @@ type BundleOpts struct {
 	VariantSets int  // b1 only: number of URLs with complete variant sets
 	MultiKey    bool // use a multi-key Variant-Key entry in the variant sets
 	Certs       []*certurl.AugmentedCertificate
-	Twins       int // extra exchanges whose status, headers and body are byte-identical to an earlier exchange (other URL)
+	Twins       int  // extra exchanges whose status, headers and body are byte-identical to an earlier exchange (other URL)
+	SharedSlab  bool // the bodies are consecutive windows of one buffer (slices with spare capacity reaching into the next body)
 }
 
 // VariantSet describes one generated variants URL.
@@ -296,6 +297,9 @@ func RandBundle(g *mon.Rand, o BundleOpts) (*bundle.Bundle, []*VariantSet) {
 		}
 		b.Signatures = s
 	}
+	if o.SharedSlab {
+		ShareSlab(b)
+	}
 	return b, sets
 }
 
@@ -338,6 +342,7 @@ func CorpusOpts(g *mon.Rand, i int, thorough bool, certs []*certurl.AugmentedCer
 	if i%4 == 2 {
 		o.Twins = 1 + g.Intn(3)
 	}
+	o.SharedSlab = (i/5)%2 == 0
 	o.Primary = g.Bool()
 	o.Manifest = g.Chance(1, 3)
 	o.Signatures = g.Chance(1, 4)
@@ -346,6 +351,22 @@ func CorpusOpts(g *mon.Rand, i int, thorough bool, certs []*certurl.AugmentedCer
 		o.MultiKey = g.Chance(1, 4)
 	}
 	return o
+}
+
+// ShareSlab re-homes the bodies of b (in exchange order) as consecutive windows of one buffer: each body slice then has
+// spare capacity that reaches into the bodies after it, the way a caller that cut the resources out of one archive or
+// mmap'ed file holds them. Contents are unchanged.
+func ShareSlab(b *bundle.Bundle) {
+	total := 0
+	for _, e := range b.Exchanges {
+		total += len(e.Response.Body)
+	}
+	slab := make([]byte, 0, total+64)
+	for _, e := range b.Exchanges {
+		off := len(slab)
+		slab = append(slab, e.Response.Body...)
+		e.Response.Body = slab[off:len(slab):cap(slab)]
+	}
 }
 
 // ForceOrderProbe adds two exchanges whose raw-string order and encoded-key
